@@ -6,6 +6,8 @@ CONSTANTS
   Vals = {1}
   MaxSnaps = 1
   MaxOps = 6
+  CodeIds = {1}
+  Blocks = TRUE
   HistOn = FALSE
 INVARIANTS ReadsLogical SnapshotsCanonical FlushCanonical
 PROPERTIES SnapshotImmutable ResetRestores
